@@ -184,6 +184,10 @@ def run(ctx):
     _, use = _c05.use_cone(fx)
     scope = [fx.by_path[p] for p in sorted(load | use) if fx.by_path[p].kind != 'promoted']
     static_state_rules(ctx, fx, scope)
+    # S5 (cont.): "loading the same bytes gives equal observations" must not depend on how the Read source fragments the bytes:
+    # the loader touches its input only through exact-length reads (the same who-may-call rule as C13/C14)
+    import iorules
+    iorules.exact_reads_only(ctx, [fx.by_path[p] for p in sorted(load) if fx.by_path[p].kind != 'promoted'], 'S5', error_mapping_ok=True)
     ctx.floor('exported types walked', len([a_ for a_ in fx.j['adts'] if a_.get('exported')]), 20)
     ctx.floor('statics examined', len(fx.statics), 1)
     ctx.floor('exported pub fns', ctx.extra.get('exported_pub_fns', 0), 80)
